@@ -106,8 +106,9 @@ def pipeline_job(comm, nprocs, eta, p, ncells, r0, coefs, gfun, phifun, m0, trig
 def qn_relations(ctx, rng, events, meta):
     from pygyro.poisson.poisson_solver import QuasiNeutralitySolver
     from pygyro.splines import splines as spl
-    from pygyro.initialisation.constants import Constants
-    c = Constants()
+    from pygyro.poisson.poisson_solver import DiffEqSolver
+    from harness import physics
+    c = physics.general_constants()        # kTe != kTi, CTe != CTi != 1, ...: a profile built from the twin constant shows
     for (nth, deg, cu) in ((8, 3, True), (7, 3, False), (6, 2, False)):
         nr = 12
         brk = np.linspace(c.rMin, c.rMax, nr - deg + 1 if not cu else nr - 2)
@@ -127,6 +128,20 @@ def qn_relations(ctx, rng, events, meta):
             return np.array(phi.getAllData()).copy()
         res = {k: {I0: solve(s, I0) for I0 in range(nth)} for k, s in solvers.items()}
         m0 = {"nth": nth, "degree": deg, "cu": cu}
+        # the quasi-neutrality operator is the general elliptic operator (C14) with the coefficients of the stated equation
+        #   -[d_r^2 + (1/r + n0'/n0) d_r + 1/r^2 d_theta^2] phi + phi / Te = rho / n0      (adiabatic; without the phi/Te term: kinetic)
+        # written here from the model's profiles, independently of the code's initialiser functions
+        ind = {"chi0": DiffEqSolver(7, basis, rn.size, nth, drFactor=lambda r: -(1 / r + physics.n0_log_derivative(r, c)),
+                                    ddThetaFactor=lambda r: -1 / r ** 2, rFactor=lambda r: 1.0 / physics.t_e(r, c),
+                                    rhoFactor=lambda r: 1.0 / physics.n0(r, c), lNeumannIdx=[0]),
+               "kinetic": DiffEqSolver(7, basis, rn.size, nth, drFactor=lambda r: -(1 / r + physics.n0_log_derivative(r, c)),
+                                       ddThetaFactor=lambda r: -1 / r ** 2, rhoFactor=lambda r: 1.0 / physics.n0(r, c), lNeumannIdx=[0])}
+        for k, s in ind.items():
+            for I0 in range(nth):
+                want = solve(s, I0)
+                sc = max(1.0, float(np.max(np.abs(want))))
+                events.append({"k": "relation", "name": "operator-is-the-stated-equation", "holds": bool(np.max(np.abs(res[k][I0] - want)) <= 1e-11 * sc)})
+                meta.append(dict(m0, what="operator-is-the-stated-equation", solver=k, I0=I0, dev=float(np.max(np.abs(res[k][I0] - want))) / sc))
 
         def rel(name, holds, **kw):
             events.append({"k": "relation", "name": name, "holds": bool(holds)})
